@@ -33,7 +33,7 @@ RULE = ('Hypothesis-generated histories (1-8 operations) over send/sendline/writ
 ASSUMPTIONS = [
     'the peer\'s own recording (a raw-mode tty / a pipe / a socket) is the ground truth of what reached it',
     'read triggers and the end marker are written directly to the descriptor by the harness and removed from the recording',
-    'delaybeforesend is set to None (a public knob); os.linesep is "\\n"',
+    'delaybeforesend in {None, 0, 1 ms} (a public knob); os.linesep is "\\n"',
 ]
 BUDGET = {'quick': 240, 'thorough': 1500}
 
@@ -97,7 +97,8 @@ def histories(draw, big=False, want_logs=False, transports=('pty', 'pty', 'fd', 
                 continue
         ops.append(op)
     case = {'transport': transport, 'enc': enc, 'ops': ops, 'maxread': draw(st.sampled_from([2000, 2000, 3])),
-            'sock_timeout': draw(st.sampled_from([None, 5.0])), 'small_sndbuf': draw(st.booleans())}
+            'sock_timeout': draw(st.sampled_from([None, 5.0])), 'small_sndbuf': draw(st.booleans()),
+            'delaybeforesend': draw(st.sampled_from([None, None, 0, 0.001]))}
     if want_logs:
         case['logs'] = sorted(draw(st.sets(st.sampled_from(['logfile', 'logfile_read', 'logfile_send']),
                                           min_size=draw(st.sampled_from([0, 1, 2, 2, 3])), max_size=3)))
@@ -182,6 +183,7 @@ def run_history(case, logs=None):
     reclogs = {}
     try:
         child = sess.child
+        child.delaybeforesend = case.get('delaybeforesend')
         for name in (logs or []):
             reclogs[name] = peers.RecLog()
             setattr(child, name, reclogs[name])
